@@ -964,7 +964,12 @@ def run_gp_scenario(spec):
                            "observed": [str(e.trial_id) for e in dec.trials_evaluations],
                            "all_ms": sorted(sch.searcher._get_exclusion_candidates().excl_set)}
                     lines.append(({"op": "codec", "enc": to_tagged(enc)}, out))
-                    events.append({"ev": "codec", "equal": bool(dec == st)})
+                    # field-wise equality (TuningJobState.__eq__ compares PendingEvaluation objects by identity)
+                    same = (dec.config_for_trial == st.config_for_trial and dec.trials_evaluations == st.trials_evaluations
+                            and list(dec.failed_trials) == list(st.failed_trials)
+                            and [(p.trial_id, p.resource) for p in dec.pending_evaluations]
+                            == [(p.trial_id, p.resource) for p in st.pending_evaluations])
+                    events.append({"ev": "codec", "equal": bool(same)})
                 except TypeError as e:
                     events.append({"ev": "codec-unencodable", "why": str(e)})
     finally:
@@ -974,3 +979,8 @@ def run_gp_scenario(spec):
 
 def hash_float(seed, tid):
     return random.Random(seed * 7919 + tid).randrange(0, 64) / 64.0
+
+
+def _plain(c):
+    """numpy scalars -> Python values"""
+    return None if c is None else {k: (v.item() if isinstance(v, np.generic) else v) for k, v in c.items()}
